@@ -37,7 +37,7 @@ def run(chk, replay=None):
     else:
         tour, st1 = vf.tlc_gen("RosterGen.tla", "RosterGenTour.cfg")
         allp, st2 = vf.tlc_gen("RosterGen.tla", "RosterGenAll.cfg" if quick else "RosterGenAll5.cfg")
-        sim, st3 = vf.tlc_simulate("RosterGen.tla", "RosterGenSim.cfg", num=300 if quick else 1500, depth=14 if quick else 24,
+        sim, st3 = vf.tlc_simulate("RosterGen.tla", "RosterGenSim.cfg", num=200 if quick else 1500, depth=14 if quick else 24,
                                    seed=chk.seed, workers=TLC_WORKERS)
         gen = {"tour_1_contact": st1, "all_paths": st2, "simulate": st3}
         if not quick:
